@@ -157,11 +157,13 @@ pub struct Knobs {
     pub sctp_max_buffered: Option<usize>,
     /// (heartbeat interval, max heartbeat failures, max association retransmits)
     pub sctp_heartbeat: Option<(Duration, u32, u32)>,
+    /// compatibility mode of endpoint Q when it differs from P's (`Cfg::legacy`): mixed-compat pairs
+    pub q_legacy: Option<bool>,
     /// runtime for every rustrtc task of endpoint P (resource measurement per endpoint)
     pub p_runtime: Option<tokio::runtime::Handle>,
 }
 impl Default for Knobs {
-    fn default() -> Self { Knobs { ice_disconnect_threshold: None, ice_disconnect_grace: None, ice_connection_timeout: None, sctp_max_buffered: None, sctp_heartbeat: None, p_runtime: None } }
+    fn default() -> Self { Knobs { ice_disconnect_threshold: None, ice_disconnect_grace: None, ice_connection_timeout: None, sctp_max_buffered: None, sctp_heartbeat: None, q_legacy: None, p_runtime: None } }
 }
 
 fn free_tcp_port() -> u16 {
@@ -177,7 +179,8 @@ pub fn rtc_config(c: &Cfg, is_p: bool, k: &Knobs) -> RtcConfiguration {
     r.bundle_policy = match c.bundle { 0 => BundlePolicy::Balanced, 1 => BundlePolicy::MaxCompat, _ => BundlePolicy::MaxBundle };
     r.rtcp_mux_policy = if c.mux_require { RtcpMuxPolicy::Require } else { RtcpMuxPolicy::Negotiate };
     r.enable_latching = c.latching;
-    r.sdp_compatibility = if c.legacy { SdpCompatibilityMode::LegacySip } else { SdpCompatibilityMode::Standard };
+    let legacy = if is_p { c.legacy } else { k.q_legacy.unwrap_or(c.legacy) };
+    r.sdp_compatibility = if legacy { SdpCompatibilityMode::LegacySip } else { SdpCompatibilityMode::Standard };
     r.bind_ip = Some("127.0.0.1".into());
     r.disable_ipv6 = true;
     match c.ice {
